@@ -73,16 +73,23 @@ def _tla(v):
     raise TypeError(v)
 
 
-def mc_files(scn, tag, max_expire, defects, invariants, max_pad=0):
+def mc_files(scn, tag, max_expire, defects, invariants, max_pad=0, helpers=()):
+    """helpers: which helpers of presence.py run (extension): subset of ('kill', 'unreg')."""
     mod = 'MC_Presence_%s_%s' % (scn['name'], tag)
+    ext = scn['ext']
+    ext_text = ('[srv |-> %s, plc |-> %s, sch |-> %s, sproot |-> %s, iorder |-> %s, sp |-> %s]' % (
+        _tla(ext['srv']), _tla(ext['plc']), _tla(ext['sch']), _tla(ext['sproot']),
+        _tla(ext['iorder']), _tla(ext['sp']) if helpers else '<<>>'))
     text = ('---- MODULE %s ----\nEXTENDS Presence\nScnHosts == %s\nScnConts == %s\n'
-            'ScnInst == %s\nScnPaths == %s\n====\n' % (
-                mod, _tla(scn['hosts']), _tla(scn['conts']), _tla(scn['inst']), _tla(scn['paths'])))
+            'ScnInst == %s\nScnPaths == %s\nScnExt == %s\n====\n' % (
+                mod, _tla(scn['hosts']), _tla(scn['conts']), _tla(scn['inst']), _tla(scn['paths']),
+                ext_text))
     percont = '{' + ', '.join(str(2 + i) for i in range(len(scn['endpoints']))) + '}'
     cfg = ['INIT Init', 'NEXT Next', 'CHECK_DEADLOCK FALSE', 'CONSTANTS',
            ' Hosts <- ScnHosts', ' Conts <- ScnConts', ' InstOf <- ScnInst', ' PathsOf <- ScnPaths',
            ' PerCont = %s' % percont, ' MaxExpire = %d' % max_expire, ' SymFirst = %s' % ('FALSE' if max_pad else 'TRUE'),
-           ' MaxKill = 0',
+           ' MaxKill = %d' % (1 if helpers else 0),
+           ' HelpKinds = {%s}' % ', '.join('"%s"' % k for k in helpers), ' Ext <- ScnExt',
            ' MaxPad = %d' % max_pad,
            ' Defects = {%s}' % ', '.join('"%s"' % d for d in defects)]
     cfg += ['INVARIANT %s' % i for i in invariants]
@@ -270,11 +277,13 @@ def _record_chunk(chunk):
     out = []
     for k, it in chunk:
         scn = pd.SCENARIOS[it[0]]
-        if it[1] == 'rnd':
-            lines, executed, skipped = pd.run_random(scn, random.Random(it[2]), it[3], max_expire=2)
+        ext = it[1].startswith('x')          # extension traces: helpers of presence.py run too
+        if it[1] in ('rnd', 'xrnd'):
+            lines, executed, skipped = pd.run_random(scn, random.Random(it[2]), it[3],
+                                                     max_expire=0 if ext else 2, ext=ext)
         else:
-            lines, executed, skipped = pd.run_schedule(scn, it[2], max_expire=3)
-        out.append(dict(tid='%s:%s:%d' % (it[0], it[1].split(':')[0], k), scn=pd.header(scn),
+            lines, executed, skipped = pd.run_schedule(scn, it[2], max_expire=3, ext=ext)
+        out.append(dict(tid='%s:%s:%d' % (it[0], it[1].split(':')[0], k), scn=pd.header(scn, ext),
                         lines=lines, scenario=it[0], src=it[1], schedule=executed,
                         skipped_actions=skipped))
     return out
@@ -347,10 +356,33 @@ def judge(ctx, traces, verdicts, extra=None):
     drift_traces = set()
     drift_examples = []
     drifting = {v['tid'] for v in verdicts if any(f.startswith('drift.') for f in v['fail'])}
+    xt = dict(traces=0, lines=0, helper_calls=0, undisturbed_runs=0, unexplained=0,
+              clauses=collections.Counter(), observations=collections.Counter(), examples=[])
+    xt['traces'] = sum(1 for t in traces if t['src'].startswith('x'))
     for v in verdicts:
         t = by_tid[v['tid']]
         fails = set(v['fail'])
-        evaluations += 1
+        if t['src'].startswith('x'):
+            # extension beyond the listed property (DESIGN.md 10.6): conformance class only
+            xt['lines'] += 1
+            xt['helper_calls'] += 1 if t['lines'][v['i']]['ev'] == 'acall' else 0
+            xt['undisturbed_runs'] += 1 if 'ext.atomic' in v['ex'] else 0
+            for f in sorted(fails):
+                if f.startswith(PROP + '.'):
+                    continue        # before the first helper line the trace is an ordinary one
+                if f == 'ext.kill.window':
+                    xt['observations']['%s %s' % (f, t['src'].split(':')[0])] += 1
+                    continue
+                xt['clauses'][f] += 1
+                xt['unexplained'] += 1
+                if len(xt['examples']) < 3:
+                    xt['examples'].append(dict(trace=t['tid'], source=t['src'], line=v['i'], clause=f,
+                                               event=json.loads(_show(t['lines'][v['i']]))))
+            fails = {f for f in fails if f.startswith(PROP + '.')}
+            if not fails:
+                continue
+        else:
+            evaluations += 1
         for e in v['ex']:
             flags[e] += 1
         if any(f.startswith('drift.') for f in fails):
@@ -380,6 +412,7 @@ def judge(ctx, traces, verdicts, extra=None):
                     what='at line %d of %s (%s): %s' % (v['i'], t['tid'], t['src'], _show(line)),
                     replay_payload=dict(kind='presence', property=PROP, clause=f,
                                         scenario=t['scenario'], schedule=t['schedule'],
+                                        ext=t['src'].startswith('x'),
                                         failed_line=v['i'], line=json.loads(_show(line)))))
     # shortest failing schedule first, per clause
     violations.sort(key=lambda x: (x['clause'], len(x['replay_payload']['schedule']),
@@ -397,12 +430,23 @@ def judge(ctx, traces, verdicts, extra=None):
               '(specs/node/Presence.tla needs updating; not a violation)' % (ctx.drift, len(drift_traces)))
         for d in drift_examples[:3]:
             print('  drift: %s' % json.dumps(d, sort_keys=True))
+    if xt['unexplained']:
+        ctx.drift += xt['unexplained']
+        print('DRIFT: %d recorded lines of behaviour modelled beyond the listed property (helpers of '
+              'presence.py: kill_node, EndpointPresence.unregister_*) are not steps of Presence.tla / '
+              'miss its ext.kill clauses %s (not a violation)' % (xt['unexplained'], dict(xt['clauses'])))
+        for d in xt['examples']:
+            print('  ext: %s' % json.dumps(d, sort_keys=True))
+    xt['clauses'] = dict(xt['clauses'])
+    xt['observations'] = dict(xt['observations'])
     ex = dict(trace_sources=dict(collections.Counter(t['src'].split(':')[0] for t in traces)),
               exercised=dict(flags), drift_examples=drift_examples,
               violating_traces_by_clause_and_source=dict(violating),
               schedule_actions_not_applicable=sum(t['skipped_actions'] for t in traces))
     if extra:
         ex.update(extra)
+    if xt['traces'] or 'extensions' in ex:
+        ex.setdefault('extensions', {}).setdefault('presence_helpers', {})['conformance'] = xt
     return core.conclude(
         ctx, level='model_checking', violations=violations, evaluations=evaluations,
         distinct_nontrivial=len(nontrivial), rule=RULE, samples=samples,
@@ -410,34 +454,135 @@ def judge(ctx, traces, verdicts, extra=None):
         exhaustive=False)
 
 
+# ---------------------------------------------------------------------------
+# Extension beyond the listed property (DESIGN.md 5 / 10.6): the helpers of
+# treadmill/presence.py (kill_node, EndpointPresence.unregister_*) as actors of
+# Presence.tla.  Conformance class: never a VIOLATION.
+EXT_INV = ['Ephemeral', 'Waits', 'OwnOnly', 'ExtScope', 'ExtAtomic']
+EXT_OBSERVATIONS = [
+    ('safe_delete_window', 'NoForeign',
+     'a node that _safe_delete has just read as its own is removed by the helper and re-created '
+     'by the other host before the (unversioned) delete: the service deletes a foreign node'),
+    ('helper_window', 'ExtNamed',
+     'a node the helper has just read as naming its host is replaced before the helper\'s '
+     '(unversioned) delete: the helper removes a node that names another host'),
+]
+
+
+def _ext_mc(ctx):
+    """Exhaustive runs of the extension configuration (invariants that hold)."""
+    out = []
+    # quick: kill_node on the two-path scenario (unregister_* is searched by the observation
+    # runs and exercised by the recorded traces); thorough: both helpers, also with an endpoint
+    plan = [('k2', ('kill',))] if ctx.quick else [('k2', ('kill', 'unreg')), ('a2', ('kill', 'unreg'))]
+    for name, kinds in plan:
+        scn = pd.SCENARIOS[name]
+        mod, cfg, files = mc_files(scn, 'ext', 0, ['olderSteals'], EXT_INV, helpers=kinds)
+        res = tlc.mc(SPEC_DIR, mod, cfg, extra_files=files, coverage=False,
+                     workers=6 if ctx.quick else 8, timeout=100 if ctx.quick else 700)
+        out.append(('extension %s: %s stepped, 1 helper run' % (name, ' + '.join(
+            'kill_node' if k == 'kill' else 'unregister_*' for k in kinds)), name, res))
+    return out
+
+
+def _ext_obs(ctx):
+    """The two get / delete windows: invariants EXPECTED to fail in the model."""
+    scn = pd.SCENARIOS['k2']
+
+    def one(obs):
+        key, inv, _what = obs
+        mod, cfg, files = mc_files(scn, 'obs_' + inv, 0, ['olderSteals'], [inv],
+                                   helpers=('unreg',) if ctx.quick else ('kill', 'unreg'))
+        return tlc.mc(SPEC_DIR, mod, cfg, extra_files=files, coverage=False, workers=4,
+                      timeout=100 if ctx.quick else 300)
+    with concurrent.futures.ThreadPoolExecutor(2) as ex:
+        return list(zip(EXT_OBSERVATIONS, ex.map(one, EXT_OBSERVATIONS)))
+
+
+def _ext_schedules(ctx, obs):
+    items, info = [], {}
+    for (key, inv, what), res in obs:
+        info[key] = dict(invariant=inv, what=what, model_counterexample_steps=len(res['cex']),
+                         violated_in_model=bool(res['violated']), reproduced_on_code=False)
+        if res['violated']:
+            labels = [(a, tlc.tlaval.split_args(b)) for a, b in res['cex']]
+            items.append(('k2', 'xcex:' + key, _sched(labels)))
+    scn = pd.SCENARIOS['k2']
+    mod, cfg, files = mc_files(scn, 'xgen', 0, ['olderSteals'], [], max_pad=70, helpers=('kill', 'unreg'))
+    behaviours, cmd = tlc.simulate(SPEC_DIR, mod, cfg, num=30 if ctx.quick else 600, depth=70,
+                                   seed=ctx.seed * 37 + 5, procs=3 if ctx.quick else 6,
+                                   extra_files=files, timeout=120 if ctx.quick else 600)
+    ctx.cmds.append(cmd)
+    items += [('k2', 'xtlc', _sched(b)) for b in behaviours]
+    names = ['k2', 'a2', 'a2b1']
+    for k in range(90 if ctx.quick else 3000):
+        items.append((names[k % len(names)], 'xrnd', ctx.seed * 1000003 + 500000 + k, 160))
+    return items, info
+
+
 def run(ctx):
     t0 = time.time()
+    pool = concurrent.futures.ThreadPoolExecutor(3)
+    f_obs = pool.submit(_ext_obs, ctx)
     items = _model_check(ctx)
     ctx.log('model checking done (%.0fs)' % (time.time() - t0))
-    with concurrent.futures.ThreadPoolExecutor(2) as ex:
+    f_ext = pool.submit(_ext_mc, ctx)           # long; overlaps the replay, joined before the verdict
+    with concurrent.futures.ThreadPoolExecutor(3) as ex:
         f_sim = ex.submit(_simulate, ctx)
         f_cov = ex.submit(_cover, ctx)
+        obs = f_obs.result()
+        f_xs = ex.submit(_ext_schedules, ctx, obs)
         sim = f_sim.result()
         cover, cover_info = f_cov.result()
+        xitems, xinfo = f_xs.result()
+    for (key, inv, _what), res in obs:
+        ctx.add_mc('extension observation %s: %s expected to fail (k2, 1 helper run)' % (key, inv), res)
+        if not res['violated']:
+            ctx.log('extension: the model no longer shows the %s window' % key)
     n_rnd = 300 if ctx.quick else 10000
     rnd = []
     names = ['a2', 'a2b1', 'a3', 'a3b2e2', 'a2b1h3']
     for k in range(n_rnd):
         rnd.append((names[k % len(names)], 'rnd', ctx.seed * 1000003 + k, 160))
     items = items + sim + cover + rnd
-    ctx.log('%d schedules: %d counterexamples, %d TLC simulate, %d transition cover, %d random'
-            % (len(items), len(items) - len(sim) - len(cover) - len(rnd), len(sim), len(cover), len(rnd)))
+    ctx.log('%d schedules: %d counterexamples, %d TLC simulate, %d transition cover, %d random; '
+            'extension: %d schedules with helper runs'
+            % (len(items), len(items) - len(sim) - len(cover) - len(rnd), len(sim), len(cover), len(rnd),
+               len(xitems)))
+    items = items + xitems                       # extension traces last: the others keep their ids
     traces = record(items)
     ctx.log('recorded %d traces, %d lines' % (len(traces), sum(len(t['lines']) for t in traces)))
     verdicts, stats = validate(traces, timeout=300 if ctx.quick else 1800)
     ctx.cmds.append(stats['cmd'])
-    return judge(ctx, traces, verdicts, extra=dict(transition_cover=cover_info))
+    # which observations the real code reproduced (the counterexample's trace shows the window)
+    windows = {v['tid'] for v in verdicts if 'ext.kill.window' in v['fail']}
+    for t in traces:
+        if t['src'].startswith('xcex:') and t['tid'] in windows:
+            xinfo[t['src'].split(':', 1)[1]]['reproduced_on_code'] = True
+    ext_runs = f_ext.result()
+    pool.shutdown()
+    for title, _name, res in ext_runs:
+        ctx.add_mc(title, res)
+        if res['violated']:
+            ctx.drift += 1
+            print('DRIFT: extension model invariant %s violated in "%s" (model level; not a violation '
+                  'of the code)' % (res['violated'], title))
+    for key, o in sorted(xinfo.items()):
+        print('OBSERVATION ext.kill.window (%s): %s -- model counterexample %d steps, %s' % (
+            key, o['what'], o['model_counterexample_steps'],
+            'reproduced on the code' if o['reproduced_on_code'] else 'NOT reproduced on the code'))
+    extensions = dict(presence_helpers=dict(
+        spec='specs/node/Presence.tla (helpers section), clauses ext.kill.* of PresenceTrace.tla',
+        model_runs=[dict(name=title, distinct=res['distinct'], generated=res['generated'],
+                         complete=res['ok'], violated=res['violated'] or '') for title, _n, res in ext_runs],
+        invariants=EXT_INV, observations=xinfo))
+    return judge(ctx, traces, verdicts, extra=dict(transition_cover=cover_info, extensions=extensions))
 
 
 def replay(ctx, path):
     payload = json.load(open(path))
     sched = [(a, args) for a, args in payload['schedule']]
-    traces = record([(payload['scenario'], 'replay', sched)])
+    traces = record([(payload['scenario'], 'xreplay' if payload.get('ext') else 'replay', sched)])
     verdicts, stats = validate(traces)
     ctx.cmds.append(stats['cmd'])
     return judge(ctx, traces, verdicts)
